@@ -10,7 +10,7 @@ multi-byte character and rejected a prefix ending in an empty piece.
 import re
 
 from vx.extract import Lost
-from contracts.rope_core import GLUE_VIEW, IMPL
+from contracts.rope_core import GLUE_VIEW, IMPL, m1_last_map_or
 
 NAME = "rope_obs"
 PROPS = ["C16", "C17"]
@@ -53,7 +53,7 @@ def build(u):
         u.use(x)
     u.spec("rope_spec.rs")
     u.spec("rope_obs_spec.rs")
-    u.raw("broadcast use {vstd::string::group_string_axioms, rope_ax::axiom_str_len_bound};", ("glue", NAME))
+    u.raw("broadcast use {vstd::string::group_string_axioms, rope_ax::axiom_str_len_bound, rope_ax::axiom_u8_slice_eq, rope_ax::axiom_str_eq};", ("glue", NAME))
     r = u.item("src/rope.rs", "pub(crate) enum Repr<'a> {")
     r.rule("V1", r"pub\(crate\) enum Repr", "pub enum Repr")
     u.item("src/rope.rs", "pub struct Rope<'a> {")
@@ -171,5 +171,56 @@ def build(u):
     sw.body_start(FN, "canary.Rope::starts_with", "canary", "proof { assert(false); }")
     for k in (1, 2, 3):
         sw.loop_body_start(FN, k, f"canary.Rope::starts_with.loop{k}", "canary", "proof { assert(false); }")
+
+    # ---- len (re-extracted: `==` calls it; same contract as in rope_core) ----
+    ln = u.method("src/rope.rs", IMPL, "len")
+    m1_last_map_or(ln, "len")
+    ln.sig("len", [("Rope::len.requires", "contract", "requires self.wf()"),
+                   ("Rope::len.ensures", "contract", "ensures n == self.bytes().len()")], ret="n")
+    ln.body_start("len", "Rope::len.hint", "hint", "proof { self.lemma_last(); }")
+
+    # ---- Rope == Rope ----
+    EQ = "eq_rope"
+    eq = u.method("src/rope.rs", "impl PartialEq<Rope<'_>> for Rope<'_> {", "eq")
+    eq.rule("D1", r"fn eq\(", "fn eq_rope(")
+    # P3: `let &(x, _) = &E[i];` -> `let x = E[i].0;` (Verus has no `&` patterns; both bind the first field of the element by copy)
+    eq.rule("P3", r"let &\((\w+), _\) = &(\w+\[\w+\]);", r"let \1 = \2.0;", count=2, fn=EQ)
+    eq.sig(EQ, [("Rope::eq_rope.requires", "contract", "requires self.wf(), other.wf()"),
+                ("Rope::eq_rope.ensures", "contract", "ensures r == (self.bytes() == other.bytes())")], ret="r")
+    eq.body_start(EQ, "Rope::eq_rope.ghost.texts", "ghost", "let ghost sb = self.bytes(); let ghost ob = other.bytes();")
+    eq.at(EQ, "before", r"let total_bytes = self\.len\(\);", "Rope::eq_rope.ghost.pieces", "ghost", "let ghost cs = chunks@; let ghost ocs = other_chunks@;", regex=True, nth=1, optional=False)
+    eq.at(EQ, "before", r"let total_bytes = self\.len\(\);", "Rope::eq_rope.hint.pieces", "hint",
+          "proof { match &self.repr { Repr::Light(s0) => { lemma_single_chunk(*s0); assert(cs =~= seq![(*s0, 0usize)]); }, Repr::Full(d0) => { assert(cs =~= d0@); } }\n"
+          "  match &other.repr { Repr::Light(s0) => { lemma_single_chunk(*s0); assert(ocs =~= seq![(*s0, 0usize)]); }, Repr::Full(d0) => { assert(ocs =~= d0@); } }\n"
+          "  assert(chunks_wf(cs) && chunks_bytes(cs) == sb); assert(chunks_wf(ocs) && chunks_bytes(ocs) == ob);\n"
+          "  assert(sb.subrange(0, 0) =~= ob.subrange(0, 0)); if cs.len() > 0 { lemma_chunk_at(cs, 0); } if ocs.len() > 0 { lemma_chunk_at(ocs, 0); } }", regex=True, nth=1)
+    eq.loop(EQ, 1, [
+        ("Rope::eq_rope.loop1.frame", "contract",
+         "invariant chunks@ == cs, other_chunks@ == ocs, chunks_wf(cs), chunks_wf(ocs), chunks_bytes(cs) == sb, chunks_bytes(ocs) == ob, sb.len() == ob.len(), total_bytes == sb.len(),\n"
+         "  sb == self.bytes(), ob == other.bytes(),"),
+        ("Rope::eq_rope.loop1.cursor", "contract",
+         "invariant byte_idx <= total_bytes, chunks_idx <= cs.len(), other_chunks_idx <= ocs.len(),\n"
+         "  chunks_idx < cs.len() ==> byte_idx == cs[chunks_idx as int].1 + in_chunk_byte_idx && in_chunk_byte_idx <= clen(cs, chunks_idx as int),\n"
+         "  chunks_idx == cs.len() ==> byte_idx == total_bytes && in_chunk_byte_idx == 0,\n"
+         "  other_chunks_idx < ocs.len() ==> byte_idx == ocs[other_chunks_idx as int].1 + in_other_chunk_byte_idx && in_other_chunk_byte_idx <= clen(ocs, other_chunks_idx as int),\n"
+         "  other_chunks_idx == ocs.len() ==> byte_idx == total_bytes && in_other_chunk_byte_idx == 0,"),
+        ("Rope::eq_rope.loop1.inv", "contract", "invariant sb.subrange(0, byte_idx as int) == ob.subrange(0, byte_idx as int),"),
+        ("Rope::eq_rope.loop1.exit", "contract",
+         "ensures byte_idx == total_bytes, sb.subrange(0, byte_idx as int) == ob.subrange(0, byte_idx as int), sb.len() == ob.len(), total_bytes == sb.len(), sb == self.bytes(), ob == other.bytes(),"),
+        ("Rope::eq_rope.loop1.dec", "contract", "decreases (cs.len() - chunks_idx) + (ocs.len() - other_chunks_idx),"),
+    ])
+    eq.at(EQ, "before", r"match chunk_remaining\.cmp\(", "Rope::eq_rope.hint.step", "hint",
+          "proof {\n"
+          "  let ci = chunks_idx as int; let oi = other_chunks_idx as int; let p = byte_idx as int;\n"
+          "  let k = if chunk_remaining <= other_chunk_remaining { chunk_remaining as int } else { other_chunk_remaining as int };\n"
+          "  lemma_chunk_at(cs, ci); lemma_chunk_at(ocs, oi);\n"
+          "  lemma_window(cs, ci, in_chunk_byte_idx as int, k); lemma_window(ocs, oi, in_other_chunk_byte_idx as int, k);\n"
+          "  lemma_eq_extend(sb, ob, p, k);\n"
+          "  if ci + 1 < cs.len() { lemma_chunk_at(cs, ci + 1); } if oi + 1 < ocs.len() { lemma_chunk_at(ocs, oi + 1); }\n"
+          "}", regex=True, nth=1)
+    _, _, bc = eq.loop_span(EQ, 1)
+    eq.buf.insert_at(bc + 1, ["    proof { assert(sb.subrange(0, sb.len() as int) =~= sb); assert(ob.subrange(0, ob.len() as int) =~= ob); }"], eq._org("Rope::eq_rope.hint.end", "hint", EQ, None))
+    eq.body_start(EQ, "canary.Rope::eq_rope", "canary", "proof { assert(false); }")
+    eq.loop_body_start(EQ, 1, "canary.Rope::eq_rope.loop1", "canary", "proof { assert(false); }")
     u.raw("}", ("glue", NAME))
-    u.contracted += [("Rope::is_empty", "src/rope.rs"), ("Rope::ends_with", "src/rope.rs"), ("Rope::starts_with", "src/rope.rs")]
+    u.contracted += [("<Rope as PartialEq<Rope>>::eq", "src/rope.rs"), ("Rope::is_empty", "src/rope.rs"), ("Rope::ends_with", "src/rope.rs"), ("Rope::starts_with", "src/rope.rs")]
